@@ -83,6 +83,15 @@ class Collector:
     def info(self, rule, construct, loc, what, detail="", **kw):
         return self.add(rule, construct, loc, what, INFO, detail, nontrivial=False, **kw)
 
+    def judge(self, recognised: bool, ok: bool, rule, construct, loc, what, detail_ok="",
+              detail_bad="", detail_unrec="shape of the code is outside the recognised idioms",
+              **kw):
+        """Three-way verdict: unrecognised shape -> UNRESOLVED (never a violation);
+        recognised shape with the wrong content -> VIOLATION."""
+        if not recognised:
+            return self.unresolved(rule, construct, loc, what, detail_unrec, **kw)
+        return self.check(ok, rule, construct, loc, what, detail_ok, detail_bad, **kw)
+
     def check(self, cond: bool, rule, construct, loc, what, detail_ok="", detail_bad="", **kw):
         if cond:
             return self.ok(rule, construct, loc, what, detail_ok, **kw)
